@@ -215,9 +215,55 @@ def pubfault_oracle(case, lines):
     return None
 
 
+def sub_replay_fault(kind, nby, n):
+    """SUB tells a new peer its subscriptions before registering it: a WRITE fault exactly there (greeting and READY went
+    through, the read side stays silent) must leave nothing behind — both halves released, later subscription changes
+    succeed and reach the healthy peers only"""
+    HS = 64 + 27
+    sc = wg.Script()
+    sc.sock(1, "SUB")
+    for b in range(2, 2 + nby):
+        sc.attach(1, b, "PUB", b"by%d" % b)
+        sc.add(f"wire {b}")
+    f = sc.fut()
+    sc.add(f"sub {f} 1 {wg.hx(b'a')}", f"poll {f}", f"drop {f}")
+    g = sc.fut()
+    sc.add(f"credit 1 {HS}", f"attach {g} 1 1", f"reveal 1 {wg.hx(wg.G + zmtp.ready('PUB', b'victim'))}", f"poll {g}",
+           f"wrerr 1 {kind}", f"poll {g}", f"drop {g}", "halves 1", "wire 1")
+    later = []
+    for t in (b"b", b"c"):
+        h = sc.fut()
+        sc.add(f"sub {h} 1 {wg.hx(t)}", f"poll {h}", f"drop {h}", "wire 1")
+        later.append(h)
+    sc.add("halves 1")
+    c = sc.case(f"SUB:replay-fault:{kind}#{n}", ["sub-replay-fault"])
+    c.expect = ("replayfault", later)
+    return c
+
+
+def replayfault_oracle(case, lines):
+    res = list(zip(case.ops, lines[1:]))
+    hv = [l for op, l in res if op == "halves 1"]
+    if hv[0] != "halves r=1 w=1" or hv[-1] != "halves r=1 w=1":
+        return (f"the connection that failed while it was being told the subscriptions is not released: {hv} (r = read half, "
+                "w = write half dropped)")
+    for h in case.expect[1]:
+        r = [l for op, l in res if op == f"poll {h}"][-1]
+        if r != "ready ok":
+            return f"a later subscribe is still routed to the connection that failed during its join: {r[:60]} (want ready ok)"
+    w1 = [l for op, l in res if op == "wire 1"][1:]
+    if any(w != "wire ." for w in w1):
+        return f"later subscription changes were written to the failed connection: {w1}"
+    return None
+
+
 def cases(tier, rng):
     out = gen.corpus(ID)
     n = 0
+    for kind in ("BrokenPipe", "ConnectionReset"):
+        for nby in (0, 1, 2):
+            out.append(sub_replay_fault(kind, nby, n))
+            n += 1
     for t in ("PUB", "XPUB"):
         for kind in ("ConnectionReset", "BrokenPipe", "TimedOut", "ConnectionAborted"):
             for backlog in (True, False):
@@ -252,6 +298,8 @@ def oracle(case, lines):
             return f"panic/abort in `{op}`"
     if not case.expect:
         return None
+    if case.expect[0] == "replayfault":
+        return replayfault_oracle(case, lines)
     if case.expect[0] == "pubfault":
         return pubfault_oracle(case, lines)
     if case.expect[0] == "eofmsg":
